@@ -15,7 +15,7 @@ CLAIMED = {
             "Trusted: Go runtime + testing/synctest, the instrumentation pass (cmd/vinstr) placing scheduling points at every sync / channel / context / connection operation, x/sync errgroup (instrumented, not assumed). Nothing is claimed beyond the completed bound or for faults outside the enumeration; weak-memory effects are not modelled."),
     "C10": ("model_checking", "DESIGN.md §4 C10, §2 E1/E2",
             "stateless model checking of the real client: a canceller thread (or a context deadline fired by the clock pseudo-thread) is placed by the preemption-bounded DFS at every scheduling point of every other thread",
-            "Query scenarios (select, insert, streamed insert, LZ4, telemetry, stalled writes, a server that falls silent in mid-query or inside a packet or a nested exception, a server that never stops sending progress, a connection whose Close reports an error, and the same queries on a client with a history: a previous query on the same client that ended with a server exception or ended well) and the handshake run on the real instrumented client inside a synctest bubble; explicit cancel() (also of a context that carries a far deadline) and context deadlines (1 s / 5 s fake) with read timeouts 3 s / 100 ms; every schedule up to the bound (quick 1, thorough 2; handshake one more in thorough) is executed and checked for: error matches the context, return within read timeout + 1 s of fake time after the context ended (clock deviations discounted), exactly one well-formed Cancel byte or none, connection and client closed (or, when the cancellation followed EndOfStream, a fully usable client), no library goroutine alive at return.",
+            "Query scenarios (select, insert, streamed insert, LZ4, telemetry, stalled writes, a server that falls silent in mid-query or inside a packet or a nested exception (also with bytewise delivery), a server that never stops sending progress, a connection whose Close reports an error, and the same queries on a client with a history: a previous query on the same client that ended with a server exception or ended well) and the handshake run on the real instrumented client inside a synctest bubble; explicit cancel() (also of a context that carries a far deadline) and context deadlines (1 s / 5 s fake) with read timeouts 3 s / 100 ms; every schedule up to the bound (quick 1, thorough 2; handshake one more in thorough) is executed and checked for: error matches the context, return within read timeout + 1 s of fake time after the context ended (clock deviations discounted), exactly one well-formed Cancel byte or none, connection and client closed (or, when the cancellation followed EndOfStream, a fully usable client), no library goroutine alive at return.",
             "Trusted: as C04. A cancellation that lands after the server's EndOfStream was consumed is treated as landing after the query (client may stay open if the C04 probe passes). Failures with a cause of their own that precede the context's end (read time-out of the hello, handshake time-out) are C13's business and are not judged here."),
     "C12": ("model_checking", "DESIGN.md §4 C12, §2 E1",
             "schedule enumeration (preemption-bounded DFS under the controlled scheduler) with the Go race detector as the per-execution oracle; the scheduler's quiescence barrier and its baton hand-off (run under runtime.RaceDisable) add no happens-before edges, so -race sees only the library's own synchronisation; every run starts with a detector self-test (a deliberate race between two scheduled goroutines must be reported)",
@@ -31,11 +31,11 @@ CLAIMED = {
             "Trusted: refwire/refcol as generators of well-formed server streams. The behaviour without OnResult (fails when a block follows one with rows) is taken from the documentation of Query.OnResult."),
     "C08": ("exploration", "DESIGN.md §4 C08",
             "bounded-exhaustive enumeration of transport segmentations of enumerated server streams on the simulated connection (reads stop at chosen cut offsets; idle gaps drive the fake clock past the read deadline)",
-            "Every stream of the C03 alphabet up to length 2 (thorough 3) at two revisions, plain and LZ4, is delivered one byte per read, split in two at every offset, with a gap longer than the read timeout before every packet, in all 2^(n-1) ways when it is at most 16 bytes long, and (thorough) in three pieces at every pair of offsets when at most 96 bytes long; also with the last bytes delivered together with EOF, with idle time inside a packet, and with the gaps repeated under a far context deadline; outcome must equal the reference interpreter's (= unsegmented) outcome.",
+            "Every stream of the C03 alphabet up to length 2 (thorough 3) at two revisions, plain and LZ4, is delivered one byte per read, split in two at every offset, with a gap longer than the read timeout before every packet, in all 2^(n-1) ways when it is at most 16 bytes long, and (thorough) in three pieces at every pair of offsets when at most 96 bytes long; also with the last bytes delivered together with EOF, with idle time inside a packet, with the gaps repeated under a far context deadline, and on a client with a past (idle longer than the handshake time-out; an earlier query whose context deadline has passed); outcome must equal the reference interpreter's (= unsegmented) outcome.",
             "Trusted: as C03. Bytes consumed from the transport are not compared (the client's buffered reader legitimately reads ahead). proto.Reader-level segmentation of whole blocks is part of C07's corpus run."),
     "C09": ("model_checking", "DESIGN.md §4 C09",
             "explicit enumeration of all OnInput callback histories up to a depth against a list-of-values reference model; every history is executed on the real client and the blocks on the wire are decoded by the reference model",
-            "All histories of <= 3 (thorough 4) rounds over 9 callback behaviours (append, Reset+append, in-place overwrite, nil unchanged, io.EOF with / without rows, wrapped io.EOF, error) x initial rows {0, 2} (and a 30000-row first block for histories of <= 2 rounds) x 6 column kinds (incl. zero-copy UInt64 / FixedString, LowCardinality, Array, inferred Enum) alone or with a second column x {plain, LZ4}; thorough additionally explores all schedules with <= 1 preemption while the server sends Progress. The server must receive exactly the model's snapshots, in order, then one empty block; callback errors must stop sending and surface from Do.",
+            "All histories of <= 3 (thorough 4) rounds over 12 callback behaviours (append, Reset+append, in-place overwrite, nil unchanged, io.EOF with / without rows, wrapped io.EOF, error, new column objects put into the input slots with rows / with a row + io.EOF / empty + io.EOF) x initial rows {0, 2} (and a 30000-row first block for histories of <= 2 rounds) x 6 column kinds (incl. zero-copy UInt64 / FixedString, LowCardinality, Array, inferred Enum) alone or with a second column x {plain, LZ4}; thorough additionally explores all schedules with <= 1 preemption while the server sends Progress. The server must receive exactly the model's snapshots, in order, then one empty block; callback errors must stop sending and surface from Do.",
             "Trusted: refcol decoding of the client's blocks. States = histories (each history is a distinct model state sequence)."),
     "C13": ("fault_enumeration", "DESIGN.md §4 C13",
             "exhaustive enumeration of (client revision, server revision) pairs over the threshold-neighbour set and of handshake fault responses (every truncation point of the hello, exception, wrong packet, garbage, cut, silence, late hello), each executed on the real Connect / Dial over the simulated connection with the fake clock",
@@ -55,7 +55,7 @@ CLAIMED = {
             "Trusted: the overlay that rewrites only the constant maxRowsInBLock. Quick covers every composition of depth <= 1 and every 11th of depth 2; thorough all."),
     "C07": ("fault_enumeration", "DESIGN.md §4 C07",
             "exhaustive enumeration of every proper prefix of every corpus encoding (plain, and inside None / LZ4 / ZSTD frames as one and two frames), decoded through typed and inferred targets",
-            "Corpus = C01 blocks (all compositions, incl. enums with a member numbered 0) and C17 messages at three revisions; ~2.2 million (encoding, cut, decoder) cases in the quick tier; a prefix the reference model parses as a complete message is excluded by construction. Values longer than the 1 MiB allocation step (seven block positions, three messages) are cut at a stated subset of positions (both ends, around every 64 KiB step, a 4099-byte stride). Oracle: an error, never nil.",
+            "Corpus = C01 blocks (all compositions, incl. enums with a member numbered 0; many-row blocks of 4095 / 4096 / 8192 rows of every base column and every composition over Nothing, cut around the buffer-size multiples) and C17 messages at three revisions; ~2.2 million (encoding, cut, decoder) cases in the quick tier; a prefix the reference model parses as a complete message is excluded by construction. Values longer than the 1 MiB allocation step (seven block positions, three messages) are cut at a stated subset of positions (both ends, around every 64 KiB step, a 4099-byte stride). Oracle: an error, never nil.",
             "Trusted: refcol / refwire for the exclusion of prefixes that are complete messages."),
     "C11": ("model_checking", "DESIGN.md §4 C11, §2 E1",
             "stateless model checking of the real chpool + puddle + ch.Dial under the controlled scheduler: preemption-bounded DFS over all interleavings of the pool-level steps of 2-3 holder threads, an optional closer thread and the health-check goroutine driven by the fake clock",
